@@ -51,7 +51,7 @@ pub fn handle(toks: &[&str], _st: &mut crate::State) -> Option<String> {
             "native" => {
                 let dir: u32 = op.get(1)?.parse().ok()?;
                 let sc = script_of(op.get(2)?)?;
-                let hor = vs::script_horizontal_direction(sc);
+                let hor = vs::script_horizontal_direction_tag(sc);
                 let d = vs::ensure_native_direction(&mut b, dir, sc);
                 (10 * hor + d) as u64
             }
